@@ -15,8 +15,9 @@ class HarnessError(Exception):
     """The machinery (not pyjelly) is wrong; reported as exit 2, never VIOLATION."""
 
 
-class StepCap(Exception):
-    """A run exceeded its event cap."""
+class StepCap(BaseException):
+    """A run exceeded its event cap.  A BaseException: it is raised from inside the simulated channel, i.e. below
+    pyjelly's frames, and neither pyjelly nor a check's ``except Exception`` may mistake it for a parser error."""
 
 
 class Deadlock(Exception):
